@@ -37,32 +37,45 @@ RTicks     == { 0 - 1, 0, 1, 2, 3, 5, 6, 7, 60, 124, 125, 126, 127, 128, 129, 13
 ROffs      == { 0 - 300, 0 - 130, 0 - 126, 0 - 125, 0 - 61, 0 - 59, 0 - 8, 0 - 7, 0 - 6, 0 - 5, 0 - 4,
                 0 - 3, 0 - 2, 0 - 1, 0, 1, 2, 3, 4, 5, 6, 100 }
 \* exhaustive export with the real constants: boundary alphabet
-BMetrics   == { M(1, 1, 1, 0, 0), M(3, 60, 1, 2, R0 + 30), M(2, 5, 2, 0, 0) }
-BTicks     == { 1, 2, 7, 130 }
-BOffs      == { 0 - 7, 0 - 1, 0, 3, 4 }
+BMetrics   == { M(1, 1, 1, 0, 0), M(3, 60, 1, 2, R0 + 30) }
+BTicks     == { 1, 7, 130 }
+BOffs      == { 0 - 7, 0, 4 }
+BMetrics2  == { M(1, 1, 1, 0, 0), M(3, 60, 1, 2, R0 + 30), M(2, 5, 2, 0, 0), M(5, 1, 2, 1, R0 + 2) }
+BTicks2    == { 0, 1, 2, 7, 130 }
+BOffs2     == { 0 - 126, 0 - 7, 0 - 1, 0, 3, 4 }
 
-(* simulation: one random representative per action class, so that flushes, consumes and clock
-   steps are as frequent as events (TLC picks uniformly among the successors) *)
+(* exhaustive export with the real constants, shaped so that every behaviour is worth replaying:
+   start state (lag of SendTime, channel occupied), a clock step, a flush or an event, an event,
+   then a flush / consume - all combinations over the boundary alphabet *)
+BehNext ==
+    LET n == Len(hist) IN
+    /\ n < MaxOps
+    /\ \/ n = 1 /\ \E d \in Ticks, hf \in BOOLEAN : Tick(d, hf)
+       \/ n = 2 /\ ((\E s \in Shards : Flush(s)) \/ FlushAll \/ EventChoice)
+       \/ n = 3 /\ EventChoice
+       \/ n >= 4 /\ ((\E s \in Shards : Flush(s)) \/ FlushAll \/ (\E s \in Shards : Consume(s)))
+
+(* simulation: TLC evaluates every disjunct of the next-state relation and picks uniformly among the
+   successors, so the action class is drawn first (weights below), then one random representative of
+   the class; two draws per step so that a disabled class rarely ends the trace early *)
 Pick(S) == {RandomElement(S)}
-SimNext ==
-    /\ Len(hist) < MaxOps
-    /\ \/ \E d \in Pick(Ticks), hf \in Pick(BOOLEAN) : Tick(d, hf)
-       \/ \E d \in Pick({1, 1, 2}), hf \in Pick(BOOLEAN) : Tick(d, hf)
-       \/ \E s \in Pick(Shards) : Flush(s)
-       \/ FlushAll
-       \/ FlushAll
-       \/ /\ nid < MaxEvents
-          /\ \E kind \in Pick(Kinds), m \in Pick(Metrics) :
-               \E ts \in Pick({clock + o : o \in TsOffs} \cup (IF kind = "api" THEN {0} ELSE {})) :
-                 \E h \in Pick(IF kind = "api" \/ m.res = 1 THEN {0} ELSE SpreadOf(m.res)) :
-                   Event(kind, m, ts, h)
-       \/ /\ nid < MaxEvents
-          /\ \E kind \in Pick(Kinds), m \in Pick(Metrics) :
-               \E ts \in Pick({clock + o : o \in {0 - 2, 0 - 1, 0, 1, 2, 3}}) :
-                 \E h \in Pick(IF kind = "api" \/ m.res = 1 THEN {0} ELSE SpreadOf(m.res)) :
-                   Event(kind, m, ts, h)
-       \/ \E s \in Shards : Consume(s)
-       \/ \E s \in Shards : Consume(s)
-       \/ (Len(hist) >= MaxOps - 12 /\ Stop)
-       \/ FlushAllData
+SimTick(c)  == \E d \in Pick(IF c = 1 THEN Ticks ELSE {0, 1, 2, 3}), hf \in Pick(BOOLEAN) : Tick(d, hf)
+SimFlush    == IF closed THEN SimTick(2) ELSE \E s \in Pick(Shards) : Flush(s)
+SimStep(c) ==
+    \/ c \in 1..4 /\ SimTick(c)
+    \/ c \in 5..6 /\ SimFlush
+    \/ c \in 7..9 /\ (IF closed THEN SimTick(2) ELSE FlushAll)
+    \/ c \in 22..26 /\ \E s \in Pick(Shards) : IF chan[s] # <<>> THEN Consume(s) ELSE SimFlush
+    \/ /\ c \in 10..15
+       /\ IF nid >= MaxEvents THEN SimTick(2) ELSE
+          \E kind \in Pick(Kinds), m \in Pick(Metrics) :
+            \E ts \in Pick({clock + o : o \in (IF c <= 12 THEN TsOffs ELSE {0 - 2, 0 - 1, 0, 1, 2, 3})}
+                            \cup (IF kind = "api" /\ c = 10 THEN {0} ELSE {})) :
+              \E h \in Pick(IF kind = "api" \/ m.res = 1 THEN {0} ELSE SpreadOf(m.res)) :
+                Event(kind, m, ts, h)
+    \/ c \in 16..19 /\ \E s \in Pick(Shards) : IF chan[s] # <<>> THEN Consume(s) ELSE SimFlush
+    \/ c = 20 /\ (IF Len(hist) >= MaxOps - 12 /\ ENABLED StopCore THEN Stop ELSE SimTick(2))
+    \/ c = 21 /\ (IF ~closed /\ \A s \in Shards : stopped[s] THEN FlushAllData ELSE SimFlush)
+SimNext == /\ Len(hist) < MaxOps
+           /\ \E c \in Pick(1..26) : SimStep(c)
 ===============================================================================
